@@ -406,6 +406,19 @@ func (d *Derived) writeInst(o *Out) {
 			emit("inst unit %d %s %s - %s", i, kind, csvI(u.Members), par)
 		}
 	}
+	if len(c.Opt.Soft) > 0 {
+		var parts []string
+		for _, sc := range c.Opt.Soft {
+			for ri, r := range d.resNames {
+				if r == sc.Res {
+					parts = append(parts, fmt.Sprintf("%d:%d:%d", ri, sc.Factor, sc.Offset))
+				}
+			}
+		}
+		if len(parts) > 0 {
+			emit("inst soft %s", strings.Join(parts, ","))
+		}
+	}
 	emit("inst end")
 }
 
